@@ -27,16 +27,21 @@ def has_body(n):
     return any(c.get("kind") == "CompoundStmt" for c in n.get("inner", []))
 
 
-def find_defs(objs, last, sig=None, targs=None):
+def find_defs(objs, last, sig=None, targs=None, record=None):
     """function definitions named `last` among the top-level nodes (and template instantiations inside them);
-    targs: required template arguments of the enclosing class template specialization, e.g. 'int' or 'int,double'"""
+    targs: required template arguments of the enclosing class template specialization, e.g. 'int' or 'int,double';
+    record: required name of the innermost enclosing class (unit key "record": tells apart member functions of the same
+    name in several nested classes of one class template, e.g. Parmap<T>::PosixSynchro / BusyWaitSynchro)"""
     found = []
 
-    def visit(n, depth, ctx):
+    def visit(n, depth, ctx, rec=None):
         k = n.get("kind")
         if k in FUNC_KINDS and n.get("name") == last and has_body(n):
-            if (sig is None or sig in n.get("type", {}).get("qualType", "")) and (targs is None or targs == ctx):
+            if (sig is None or sig in n.get("type", {}).get("qualType", "")) and (targs is None or targs == ctx) and \
+                    (record is None or record == rec):
                 found.append(n)
+        if k in ("CXXRecordDecl", "ClassTemplateSpecializationDecl"):
+            rec = n.get("name")
         if k == "ClassTemplateSpecializationDecl":
             ctx = ",".join((c.get("type") or {}).get("qualType", c.get("value", "?")) for c in n.get("inner", [])
                            if isinstance(c, dict) and c.get("kind") == "TemplateArgument")
@@ -44,7 +49,7 @@ def find_defs(objs, last, sig=None, targs=None):
                  "NamespaceDecl", "LinkageSpecDecl") and depth < 4:
             for c in n.get("inner", []):
                 if isinstance(c, dict):
-                    visit(c, depth + 1, ctx)
+                    visit(c, depth + 1, ctx, rec)
 
     for o in objs:
         visit(o, 0, None)
@@ -184,7 +189,7 @@ def translate(cfg, outdir):
 
     def emit_unit(u, objs, accessor_only=False):
         last = u["name"].split("::")[-1]
-        defs = find_defs(objs, last, u.get("sig"), u.get("targs"))
+        defs = find_defs(objs, last, u.get("sig"), u.get("targs"), u.get("record"))
         if accessor_only:
             defs = [d for d in defs if is_accessor(d)]
             if len(defs) != 1:
